@@ -77,7 +77,6 @@ theorem Inv.reserve {hdr : List UInt8} {e : Enc} {w : Writer} {ej : Nat} {P : Li
     Inv hdr (reserve ⟨e, w, ej, true⟩ n).e (reserve ⟨e, w, ej, true⟩ n).w (reserve ⟨e, w, ej, true⟩ n).ej P ∧
     (reserve ⟨e, w, ej, true⟩ n).ej + n ≤ 65528 := by
   unfold Uncomp.reserve
-  simp only [ejMax]
   by_cases hfit : ej + n > 65528
   · simp only [hfit, ↓reduceIte]
     obtain ⟨hsz, hoob, hw, hej, bs, hlen, hout, hA, hnil, hcons⟩ := h
@@ -122,5 +121,88 @@ theorem Inv.reserve {hdr : List UInt8} {e : Enc} {w : Writer} {ej : Nat} {P : Li
         simp
   · simp only [hfit, ↓reduceIte]
     exact ⟨trivial, h, by omega⟩
+
+/-- the bytes one pixel loop stores: the first `n` of every `k` source bytes, `cnt` pixels from `off` -/
+def pixBytes (pix : Array UInt8) (n k : Nat) : Nat → Nat → List UInt8
+  | 0, _ => []
+  | cnt + 1, off => slice pix off (off + n) ++ pixBytes pix n k cnt (off + k)
+
+/-- `rows` scanlines from row `y`: filter byte 0, then the row's pixel bytes -/
+def scanlines (pix : Array UInt8) (n k width stride : Nat) : Nat → Nat → List UInt8
+  | 0, _ => []
+  | rows + 1, y => 0 :: pixBytes pix n k width (y * stride) ++ scanlines pix n k width stride rows (y + 1)
+
+/-- the decoded image: `rows` rows from row `y`, each the row's pixel bytes, no padding -/
+def imageBytes (pix : Array UInt8) (n k width stride : Nat) : Nat → Nat → List UInt8
+  | 0, _ => []
+  | rows + 1, y => pixBytes pix n k width (y * stride) ++ imageBytes pix n k width stride rows (y + 1)
+
+theorem length_pixBytes (pix : Array UInt8) (n k cnt off : Nat) (hnk : n ≤ k) (hpix : off + k * cnt ≤ pix.size) :
+    (pixBytes pix n k cnt off).length = cnt * n := by
+  induction cnt generalizing off with
+  | zero => simp [pixBytes]
+  | succ cnt ih =>
+    have hk : k * (cnt + 1) = k * cnt + k := by rw [Nat.mul_add, Nat.mul_one]
+    rw [pixBytes, List.length_append, ih _ (by omega), length_slice _ _ _ (by omega), Nat.add_mul]
+    omega
+
+theorem pixLoop_inv (hdr : List UInt8) (pix : Array UInt8) (n k : Nat) (hn : n ≤ 64) (hnk : n ≤ k)
+    (cnt off : Nat) (e : Enc) (w : Writer) (ej : Nat) (P : List UInt8)
+    (h : Inv hdr e w ej P) (hpix : off + k * cnt ≤ pix.size) :
+    (pixLoop pix n k cnt off ⟨e, w, ej, true⟩).ok = true ∧
+    Inv hdr (pixLoop pix n k cnt off ⟨e, w, ej, true⟩).e (pixLoop pix n k cnt off ⟨e, w, ej, true⟩).w
+      (pixLoop pix n k cnt off ⟨e, w, ej, true⟩).ej (P ++ pixBytes pix n k cnt off) := by
+  induction cnt generalizing off e w ej P with
+  | zero => simpa [pixLoop, pixBytes] using h
+  | succ cnt ih =>
+    obtain ⟨r1, r2, r3⟩ := h.reserve n hn
+    rw [pixLoop]
+    simp only [r1, ↓reduceIte]
+    have hk : k * (cnt + 1) = k * cnt + k := by rw [Nat.mul_add, Nat.mul_one]
+    have hoff : off + n ≤ pix.size := by omega
+    rw [copyN_eq_blit_slice _ _ _ _ _ hoff]
+    have hl : (slice pix off (off + n)).length = n := by rw [length_slice _ _ _ hoff]; omega
+    have h2 := r2.blit (slice pix off (off + n)) (by rw [hl]; exact r3)
+    rw [hl] at h2
+    have := ih (off + k) _ _ _ _ h2 (by omega)
+    simpa [pixBytes, List.append_assoc] using this
+
+theorem rowLoop_inv (hdr : List UInt8) (pix : Array UInt8) (n k width stride : Nat) (hn : n ≤ 64) (hnk : n ≤ k)
+    (rows y : Nat) (e : Enc) (w : Writer) (ej : Nat) (P : List UInt8)
+    (h : Inv hdr e w ej P)
+    (hpix : ∀ y', y ≤ y' → y' < y + rows → y' * stride + k * width ≤ pix.size) :
+    (rowLoop pix width (stride : Int) n k rows y ⟨e, w, ej, true⟩).ok = true ∧
+    Inv hdr (rowLoop pix width (stride : Int) n k rows y ⟨e, w, ej, true⟩).e
+      (rowLoop pix width (stride : Int) n k rows y ⟨e, w, ej, true⟩).w
+      (rowLoop pix width (stride : Int) n k rows y ⟨e, w, ej, true⟩).ej
+      (P ++ scanlines pix n k width stride rows y) := by
+  induction rows generalizing y e w ej P with
+  | zero => simpa [rowLoop, scanlines] using h
+  | succ rows ih =>
+    obtain ⟨r1, r2, r3⟩ := h.reserve 1 (by omega)
+    rw [rowLoop]
+    simp only [r1, ↓reduceIte]
+    have hrow := hpix y (by omega) (by omega)
+    have hcast : (y : Int) * (stride : Int) = ((y * stride : Nat) : Int) := by rw [Int.natCast_mul]
+    have hno : ¬ ((y : Int) * (stride : Int) < 0 ∨
+        (y : Int) * (stride : Int) + ((k * width : Nat) : Int) > (pix.size : Int)) := by
+      rw [hcast]; omega
+    simp only [hno, ↓reduceIte]
+    have htn : ((y : Int) * (stride : Int)).toNat = y * stride := by rw [hcast]; exact Int.toNat_natCast _
+    rw [htn]
+    have h2 := r2.blit [0] (by simpa using r3)
+    have hset : ∀ (e' : Enc) (j : Nat), e'.set j 0 = e'.blit j [0] := fun _ _ => rfl
+    rw [hset]
+    obtain ⟨p1, p2⟩ := pixLoop_inv hdr pix n k hn hnk width (y * stride) _ _ _ _ h2 (by omega)
+    simp only [List.length_cons, List.length_nil, Nat.zero_add] at p1 p2
+    generalize pixLoop pix n k width (y * stride)
+      ⟨(Uncomp.reserve ⟨e, w, ej, true⟩ 1).e.blit (Uncomp.reserve ⟨e, w, ej, true⟩ 1).ej [0],
+       (Uncomp.reserve ⟨e, w, ej, true⟩ 1).w, (Uncomp.reserve ⟨e, w, ej, true⟩ 1).ej + 1, true⟩ = s2 at p1 p2 ⊢
+    obtain ⟨e2, w2, ej2, ok2⟩ := s2
+    simp only at p1 p2
+    subst p1
+    simp only [↓reduceIte]
+    have := ih (y + 1) _ _ _ _ p2 (fun y' h1 h2 => hpix y' (by omega) (by omega))
+    simpa [scanlines, List.append_assoc] using this
 
 end WuffsVerif.Png.Uncomp
